@@ -923,6 +923,25 @@ func ruleResumeAtTheFirstRetainedEntry(c *eng.Ctx) {
 				exact++
 				continue
 			}
+			// a local that is the first index on one way and something else on another (`resume := first; if … { resume =
+			// snapshot + 1 }`) is not the first index
+			if inner, isPhi := es.(*ssa.Phi); isPhi && inner != ph {
+				hasFirst, other := false, false
+				for _, src := range phiSources(inner) {
+					if firstIdx(eng.Strip(src)) {
+						hasFirst = true
+					} else if src != ssa.Value(ph) {
+						other = true
+					}
+				}
+				if hasFirst {
+					uses++
+					if !other {
+						exact++
+					}
+					continue
+				}
+			}
 			// an index COMPUTED from the first index (first + 1, first - 1); a comparison with it (`index < first` bound to a
 			// flag) is a test, not a place to resume at
 			if bo, isBo := es.(*ssa.BinOp); isBo && (firstIdx(eng.Strip(bo.X)) || firstIdx(eng.Strip(bo.Y))) {
